@@ -49,6 +49,10 @@ pub fn waveform_obs(wave: &mut simple::Waveform) -> String {
         .map(|i| SignalRef::from_index(i).unwrap())
         .filter(|r| wave.hierarchy().get_signal_tpe(*r).is_some())
         .collect();
+    // load the way a viewer does: one request holding the signal of every variable, in declaration order, so
+    // that a signal with several variables (aliases) is requested several times
+    let req: Vec<SignalRef> = wave.hierarchy().iter_vars().map(|v| v.signal_ref()).collect();
+    wave.load_signals(&req);
     wave.load_signals(&ids);
     let mut out = format!("tt={}", time_table_obs(wave.time_table()));
     for id in ids {
@@ -63,7 +67,10 @@ pub fn body_result_obs(h: &Hierarchy, mut source: SignalSource, tt: &[Time]) -> 
         .map(|i| SignalRef::from_index(i).unwrap())
         .filter(|r| h.get_signal_tpe(*r).is_some())
         .collect();
-    let loaded = source.load_signals(&ids, h, false);
+    // requested the way a viewer does: the signal of every variable (aliases repeat a signal), then every signal
+    let mut req: Vec<SignalRef> = h.iter_vars().map(|v| v.signal_ref()).collect();
+    req.extend_from_slice(&ids);
+    let loaded = source.load_signals(&req, h, false);
     let mut out = format!("tt={}", time_table_obs(tt));
     for (id, sig) in loaded.iter() {
         out.push_str(&format!(" s{}={}", id.index(), signal_obs(sig)));
